@@ -102,8 +102,45 @@ def _ec():
             assert c.add(P, Q) == c.add(Q, P) and c.on_curve(c.add(P, Q))
             for R in pts[:5]:
                 assert c.add(c.add(P, Q), R) == c.add(P, c.add(Q, R))
+    # Jacobian ladder == affine definition: all k on small curves, sampled k on the big ones
+    for c2 in toys[:6]:
+        for kk in range(-2, 2 * c2.n + 2):
+            assert c2.mul(kk, c2.G) == c2.mul_affine(kk, c2.G), (c2.name, kk)
+            Q2 = c2.mul_affine(3, c2.G)
+            assert c2.mul(kk, Q2) == c2.mul_affine(kk, Q2)
+    for cv in (k1, r1, b):
+        x = 0x1234567
+        for _ in range(6):
+            x = (x * 0x9E3779B97F4A7C15 + 12345) % cv.n
+            Pq = cv.mul_affine(x ^ 0xABCDEF, cv.G)
+            assert cv.mul(x, Pq) == cv.mul_affine(x, Pq) and cv.mul(x, cv.G) == cv.mul_affine(x, cv.G)
+        assert cv.mul(cv.n - 1, cv.G) == cv.neg(cv.G) and cv.mul(cv.n + 1, cv.G) == cv.G
     acc = None
     for kk in range(0, 3 * c.n):
         assert c.mul(kk, c.G) == acc == c.mul_unreduced(kk, c.G)
         assert c.mul(-kk, c.G) == c.neg(acc)
         acc = c.add(acc, c.G)
+
+
+@register("ripemd-model", ["C19", "C09", "C05", "C06", "C13"])
+def _ripemd():
+    from dsim.models import ripemd
+    ripemd.kat()
+
+
+@register("murmur-model", ["C19", "C14"])
+def _murmur():
+    from dsim.models import murmur
+    murmur.kat()
+
+
+@register("merkle-model", ["C14"])
+def _merkle():
+    from dsim.models import merkle
+    merkle.kat()
+
+
+@register("bip32-model", ["C09"])
+def _bip32():
+    from dsim.models import bip32
+    bip32.kat()
